@@ -78,7 +78,7 @@ class StepInterp(Interp):
         self.options = ADict({'globals': globals_, 'statementCount': 0, 'maxStatements': limit})
         locals_ = ADict({}) if scope == 'function' else None
         params = [a.arg for a in func.args.args]
-        if len(params) != 3:
+        if len(params) < 3 or len(params) - len(func.args.defaults) > 3:
             raise Unrecognised(self.rule, f'{func.name} does not take (statements, options, locals)', self.mod.rel)
         try:
             val = self.call_function(func, [statements, self.options, locals_], func)
